@@ -1,11 +1,11 @@
 package main
 
 import (
-	"io"
-	"crypto"
 	"bytes"
+	"crypto"
 	"encoding/binary"
 	"fmt"
+	"io"
 	"strconv"
 	"strings"
 	"time"
@@ -20,7 +20,7 @@ import (
 type rawValue []byte
 
 func (r rawValue) Marshal(b *bytes.Buffer) { b.Write(r) }
-func (r rawValue) Bytes() []byte             { return r }
+func (r rawValue) Bytes() []byte           { return r }
 
 func init() {
 	// worker side: sign a variable update in this process (whose TZ the parent chose)
